@@ -39,6 +39,70 @@ Theorem C06_failed_noop_oci : forall U : N -> gkey,
 Proof. exact failed_noop_oci. Qed.
 Print Assumptions C06_failed_noop_oci.
 
+(* ---- the clauses of the property, for every history ---- *)
+
+(* memory: after a successful Push, whatever happens next, Fetch of that descriptor
+   returns exactly the pushed bytes (whose hash and length are the descriptor's), and
+   pushing it again is refused with already-exists and changes nothing *)
+Theorem C06_fetch_returns_pushed_memory : forall s d c h2 d',
+  snd (mem_step s (Push d c)) = OOk -> gk d' = gk d ->
+  let s2 := fst (run mem_step (fst (mem_step s (Push d c))) h2) in
+  snd (mem_step s2 (Fetch d')) = OBytes (b_hash c) (b_len c) /  b_hash c = d_dig d /\ b_len c = d_size d /  forall c', mem_step s2 (Push d' c') = (s2, OErr EAlreadyExists).
+Proof. exact mem_fetch_returns_pushed. Qed.
+Print Assumptions C06_fetch_returns_pushed_memory.
+
+(* memory: Resolve returns the descriptor most recently tagged *)
+Theorem C06_resolve_latest_memory : forall s d r h2,
+  snd (mem_step s (Tag d r)) = OOk -> forallb (fun o => negb (tags_ref r o)) h2 = true ->
+  snd (mem_step (fst (run mem_step (fst (mem_step s (Tag d r))) h2)) (Resolve r)) = ODesc d.
+Proof. exact mem_resolve_latest. Qed.
+Print Assumptions C06_resolve_latest_memory.
+
+(* memory: content never pushed successfully is absent; fetching or tagging it is not-found *)
+Theorem C06_absent_notfound_memory : forall h k,
+  (forall d c, In (Push d c) h -> gk d <> k) ->
+  let s := fst (run mem_step mem_init h) in
+  get gkey_eqb k (m_cas s) = None /  forall d r, gk d = k -> snd (mem_step s (Fetch d)) = OErr ENotFound /                          snd (mem_step s (Tag d r)) = OErr ENotFound /                          snd (mem_step s (Exists d)) = OBool false.
+Proof. exact mem_never_pushed_absent. Qed.
+Print Assumptions C06_absent_notfound_memory.
+
+(* OCI: the same until the content is deleted *)
+Theorem C06_fetch_returns_pushed_oci : forall s d c h2 d',
+  snd (oci_step s (Push d c)) = OOk -> d_dig d' = d_dig d ->
+  forallb (fun o => negb (deletes_dig (d_dig d) o)) h2 = true ->
+  let s2 := fst (run oci_step (fst (oci_step s (Push d c))) h2) in
+  snd (oci_step s2 (Fetch d')) = OBytes (b_hash c) (b_len c) /  b_hash c = d_dig d /\ b_len c = d_size d /  forall c', oci_step s2 (Push d' c') = (s2, OErr EAlreadyExists).
+Proof. exact oci_fetch_returns_pushed. Qed.
+Print Assumptions C06_fetch_returns_pushed_oci.
+
+(* OCI: a name resolves to the descriptor most recently tagged (full descriptor,
+   annotations included) until it is re-tagged, untagged, or its content deleted *)
+Theorem C06_resolve_latest_oci : forall h1 d n h2,
+  let s := fst (run oci_step oci_init h1) in
+  snd (oci_step s (Tag d (RName n))) = OOk ->
+  forallb (fun o => negb (touches_name n (gk d) o)) h2 = true ->
+  snd (oci_step (fst (run oci_step (fst (oci_step s (Tag d (RName n)))) h2)) (Resolve (RName n))) = ODesc d.
+Proof. exact oci_resolve_latest. Qed.
+Print Assumptions C06_resolve_latest_oci.
+
+(* OCI: Delete removes the content and every name that pointed to it *)
+Theorem C06_delete_clears_oci : forall h1 d,
+  let s := fst (run oci_step oci_init h1) in
+  snd (oci_step s (Delete d)) = OOk ->
+  let s' := fst (oci_step s (Delete d)) in
+  snd (oci_step s' (Fetch d)) = OErr ENotFound /  snd (oci_step s' (Exists d)) = OBool false /  forall n d', get ref_eqb (RName n) (r_index (o_res s)) = Some d' -> gk d' = gk d ->
+               snd (oci_step s' (Resolve (RName n))) = OErr ENotFound.
+Proof. exact oci_delete_clears. Qed.
+Print Assumptions C06_delete_clears_oci.
+
+(* OCI: Store.delete walks a Go map; for every iteration order of the snapshot the
+   surviving references are exactly those not content.Equal to the target *)
+Theorem C06_delete_order_free : forall k snap t r,
+  NoDup (map fst t) -> (forall e, In e snap <-> In e t) ->
+  get ref_eqb r (untag_fold k snap t) = get ref_eqb r (spec_untag_equal k t).
+Proof. exact untag_fold_order_free. Qed.
+Print Assumptions C06_delete_order_free.
+
 (* ---- the hypotheses are satisfiable: a concrete universe and history ---- *)
 Definition ex_U (g : N) : gkey :=
   if g =? 1 then (1, 1, 10) else if g =? 2 then (6, 2, 5) else (0, g, 0).
